@@ -2,9 +2,12 @@
 //! Drives the REAL `emit::level::{MinLevelFilter, MinLevelPathMap}` and `Level::from_str`.
 //!
 //! case formats (see lean/EmitModel/Driver/C17.lean):
-//!   (c17 (regs R…) xMDL (props (xKEY V)…))   R ::= (d MIN DFLT) | (p xPATH MIN DFLT)
-//!   (min MIN DFLT (props …))
+//!   (c17 (regs R…) xMDL (props (xKEY V)…))   R ::= (d MIN DFLT) | (p xPATH MIN DFLT) | (db MIN) | (pb xPATH MIN)
+//!                                             (db / pb: a BARE `Level` through `From<Level> for MinLevelFilter`)
+//!   (c17s (regs S…) xMDL (props …))            S ::= (d SEV SDFLT) | (p xPATH SEV SDFLT)   — `MinLevelPathMap<Sev>`
+//!   (min MIN DFLT (props …))   (minb MIN (props …))   (mins SEV SDFLT (props …))          — `MinLevelFilter<Sev>`
 //!   (lvl xSTR)
+//! `Sev` is a user level type (0-7, smaller = more severe, so its `Ord` is the reverse of the numeric order).
 
 use emit::{Filter, Level};
 use hcommon::{Rng, Sexp, Stream, Tier};
@@ -44,6 +47,63 @@ fn min_filter(mn: &Sexp, df: &Sexp) -> Option<emit::level::MinLevelFilter> {
         f = f.treat_unleveled_as(d);
     }
     Some(f)
+}
+
+/// A registration's filter as the caller writes it: a built `MinLevelFilter`, or a bare `Level` that the
+/// map's `impl Into<MinLevelFilter>` parameter converts (`From<Level> for MinLevelFilter`, src/level.rs:231).
+enum MinArg {
+    Filter(emit::level::MinLevelFilter),
+    Bare(Level),
+}
+
+/// For the bulk constructor `min_by_path_filter`, whose items all have one type `L: Into<MinLevelFilter>`: the
+/// bare side goes through the library's own conversion.
+impl From<MinArg> for emit::level::MinLevelFilter {
+    fn from(a: MinArg) -> Self {
+        match a {
+            MinArg::Filter(f) => f,
+            MinArg::Bare(l) => l.into(),
+        }
+    }
+}
+
+// ------------------------------------------------------------------ a user level type
+
+/// Syslog-style severity: 0 (emergency) … 7 (debug); SMALLER is MORE severe, so `a >= b` holds when `a` is
+/// numerically at most `b`. Read from integer values only; the default severity is 6.
+#[derive(Debug, Clone, Copy, PartialEq, Eq)]
+struct Sev(u8);
+
+impl Ord for Sev {
+    fn cmp(&self, other: &Self) -> std::cmp::Ordering {
+        other.0.cmp(&self.0)
+    }
+}
+impl PartialOrd for Sev {
+    fn partial_cmp(&self, other: &Self) -> Option<std::cmp::Ordering> {
+        Some(self.cmp(other))
+    }
+}
+impl Default for Sev {
+    fn default() -> Self {
+        Sev(6)
+    }
+}
+impl<'v> emit::value::FromValue<'v> for Sev {
+    fn from_value(value: emit::Value<'v>) -> Option<Self> {
+        let i = value.cast::<i64>()?;
+        (0..=7).contains(&i).then(|| Sev(i as u8))
+    }
+}
+
+fn sev(s: &Sexp) -> Option<Sev> {
+    let n = s.as_u64()?;
+    (n <= 7).then(|| Sev(n as u8))
+}
+
+fn sev_filter(mn: &Sexp, df: &Sexp) -> Option<emit::level::MinLevelFilter<Sev>> {
+    let f = emit::level::MinLevelFilter::new(sev(mn)?);
+    Some(if df.as_atom() == Some("none") { f } else { f.treat_unleveled_as(sev(df)?) })
 }
 
 enum Val {
@@ -138,6 +198,9 @@ fn run_c17(line: &str) -> String {
     (|| -> Option<String> {
         let s = Sexp::parse(line)?;
         let (tag, args) = s.as_tagged()?;
+        if tag == "c17s" {
+            return run_c17s(args);
+        }
         if tag != "c17" || args.len() != 3 {
             return None;
         }
@@ -150,23 +213,37 @@ fn run_c17(line: &str) -> String {
         let mut map = emit::level::MinLevelPathMap::new();
         // second construction path: the bulk constructor `min_by_path_filter` / `FromIterator` (the default
         // minimum is the root of the trie, so when it is set relative to the paths is immaterial)
-        let mut bulk: Vec<(emit::Path<'static>, emit::level::MinLevelFilter)> = Vec::new();
+        let mut bulk: Vec<(emit::Path<'static>, MinArg)> = Vec::new();
         let mut last_default = None;
         for r in regs {
             let (t, a) = r.as_tagged()?;
             match (t, a.len()) {
                 ("d", 2) => {
                     map.default_min_level(min_filter(&a[0], &a[1])?);
-                    last_default = Some(min_filter(&a[0], &a[1])?);
+                    last_default = Some(MinArg::Filter(min_filter(&a[0], &a[1])?));
                 }
                 ("p", 3) => {
                     let path = a[0].as_string()?;
                     map.min_level(emit::Path::new_owned_raw(path.clone()), min_filter(&a[1], &a[2])?);
-                    bulk.push((emit::Path::new_owned_raw(path), min_filter(&a[1], &a[2])?));
+                    bulk.push((emit::Path::new_owned_raw(path), MinArg::Filter(min_filter(&a[1], &a[2])?)));
+                }
+                // a bare `Level`: `impl Into<MinLevelFilter>` → `From<Level> for MinLevelFilter`
+                ("db", 1) => {
+                    map.default_min_level(level(&a[0])?);
+                    last_default = Some(MinArg::Bare(level(&a[0])?));
+                }
+                ("pb", 2) => {
+                    let path = a[0].as_string()?;
+                    map.min_level(emit::Path::new_owned_raw(path.clone()), level(&a[1])?);
+                    bulk.push((emit::Path::new_owned_raw(path), MinArg::Bare(level(&a[1])?)));
                 }
                 _ => return None,
             }
         }
+        // when every registration is bare, the bulk constructor is also called at `L = Level` itself
+        let all_bare: Option<Vec<(emit::Path<'static>, Level)>> =
+            bulk.iter().map(|(p, a)| if let MinArg::Bare(l) = a { Some((p.clone(), *l)) } else { None }).collect();
+        let map3 = all_bare.filter(|_| last_default.is_none()).map(emit::level::min_by_path_filter);
         let mut map2 = emit::level::min_by_path_filter(bulk);
         if let Some(d) = last_default {
             map2.default_min_level(d);
@@ -175,6 +252,12 @@ fn run_c17(line: &str) -> String {
         let rb = with_event(&mdl, &ps, |evt| map2.matches(&evt));
         if rb != r {
             return Some(format!("{}\tFAIL:min_by_path_filter-differs-from-min_level-calls({})", r, rb));
+        }
+        if let Some(map3) = map3 {
+            let rc = with_event(&mdl, &ps, |evt| map3.matches(&evt));
+            if rc != r {
+                return Some(format!("{}\tFAIL:min_by_path_filter-of-bare-levels-differs({})", r, rc));
+            }
         }
         // the type-erased path must agree with the generic one (C01 clause, observed here for free)
         let erased: &dyn emit::filter::ErasedFilter = &map;
@@ -201,18 +284,79 @@ fn matches_split<F: emit::Filter>(f: &F, evt: emit::Event<&[(&str, emit::Value)]
     f.matches(&evt.map_props(|_| a.and_props(b)))
 }
 
+/// `(c17s (regs S…) xMDL (props …))`: `MinLevelPathMap<Sev>` built by `min_level` / `default_min_level` calls and,
+/// a second time, by `FromIterator`.
+fn run_c17s(args: &[Sexp]) -> Option<String> {
+    if args.len() != 3 {
+        return None;
+    }
+    let (rt, regs) = args[0].as_tagged()?;
+    if rt != "regs" {
+        return None;
+    }
+    let mdl = args[1].as_string()?;
+    let ps = props(&args[2])?;
+    let mut map = emit::level::MinLevelPathMap::<Sev>::new();
+    let mut bulk: Vec<(emit::Path<'static>, emit::level::MinLevelFilter<Sev>)> = Vec::new();
+    let mut last_default = None;
+    for r in regs {
+        let (t, a) = r.as_tagged()?;
+        match (t, a.len()) {
+            ("d", 2) => {
+                map.default_min_level(sev_filter(&a[0], &a[1])?);
+                last_default = Some(sev_filter(&a[0], &a[1])?);
+            }
+            ("p", 3) => {
+                let path = a[0].as_string()?;
+                map.min_level(emit::Path::new_owned_raw(path.clone()), sev_filter(&a[1], &a[2])?);
+                bulk.push((emit::Path::new_owned_raw(path), sev_filter(&a[1], &a[2])?));
+            }
+            _ => return None,
+        }
+    }
+    let mut map2: emit::level::MinLevelPathMap<Sev> = bulk.into_iter().collect();
+    if let Some(d) = last_default {
+        map2.default_min_level(d);
+    }
+    let r = with_event(&mdl, &ps, |evt| map.matches(&evt));
+    let rb = with_event(&mdl, &ps, |evt| map2.matches(&evt));
+    let erased: &dyn emit::filter::ErasedFilter = &map;
+    let r2 = with_event(&mdl, &ps, |evt| erased.matches(&evt));
+    Some(if rb != r {
+        format!("{}\tFAIL:from_iter-differs-from-min_level-calls({})", r, rb)
+    } else if r2 != r {
+        format!("{}\tFAIL:erased-path-differs({})", r, r2)
+    } else {
+        format!("{}", r)
+    })
+}
+
 fn run_min(line: &str) -> String {
     (|| -> Option<String> {
         let s = Sexp::parse(line)?;
         let (tag, args) = s.as_tagged()?;
-        if tag != "min" || args.len() != 3 {
-            return None;
+        match (tag, args.len()) {
+            ("min", 3) => {
+                let f = min_filter(&args[0], &args[1])?;
+                let ps = props(&args[2])?;
+                let r = with_event("m", &ps, |evt| f.matches(&evt));
+                let r3 = with_event("m", &ps, |evt| matches_split(&f, evt));
+                Some(if r == r3 { format!("{}", r) } else { format!("{}\tFAIL:and_props-split-differs({})", r, r3) })
+            }
+            // a bare level converted by `From<Level> for MinLevelFilter`
+            ("minb", 2) => {
+                let f: emit::level::MinLevelFilter = level(&args[0])?.into();
+                let ps = props(&args[1])?;
+                Some(format!("{}", with_event("m", &ps, |evt| f.matches(&evt))))
+            }
+            // the user level type
+            ("mins", 3) => {
+                let f = sev_filter(&args[0], &args[1])?;
+                let ps = props(&args[2])?;
+                Some(format!("{}", with_event("m", &ps, |evt| f.matches(&evt))))
+            }
+            _ => None,
         }
-        let f = min_filter(&args[0], &args[1])?;
-        let ps = props(&args[2])?;
-        let r = with_event("m", &ps, |evt| f.matches(&evt));
-        let r3 = with_event("m", &ps, |evt| matches_split(&f, evt));
-        Some(if r == r3 { format!("{}", r) } else { format!("{}\tFAIL:and_props-split-differs({})", r, r3) })
     })()
     .unwrap_or_else(|| "bad-case".into())
 }
@@ -302,6 +446,28 @@ fn gen_props(rng: &mut Rng) -> Sexp {
     Sexp::tagged("props", items)
 }
 
+/// props for the user level type: mostly integers around the valid range 0-7, some values it cannot read
+fn gen_props_sev(rng: &mut Rng) -> Sexp {
+    let n = rng.usize(4);
+    let mut items = Vec::new();
+    for _ in 0..n {
+        let key = *rng.pick(&["lvl", "lvl", "lvl", "a", "LVL", ""]);
+        let v = match rng.below(8) {
+            0..=4 => Sexp::tagged("int", vec![Sexp::num(rng.range(0, 11) as i64 - 2)]),
+            5 => Sexp::tagged("typed", vec![Sexp::atom(*rng.pick(&LEVELS))]),
+            6 => Sexp::tagged("text", vec![Sexp::str(*rng.pick(&["3", "0", "warn", "", " 5"]))]),
+            _ => Sexp::tagged("bool", vec![Sexp::bool(rng.bool())]),
+        };
+        items.push(Sexp::list(vec![Sexp::str(key), v]));
+    }
+    Sexp::tagged("props", items)
+}
+
+fn gen_sevf(rng: &mut Rng) -> (Sexp, Sexp) {
+    let df = if rng.chance(1, 3) { Sexp::num(rng.below(8)) } else { Sexp::atom("none") };
+    (Sexp::num(rng.below(8)), df)
+}
+
 fn gen_minf(rng: &mut Rng) -> (Sexp, Sexp) {
     let mn = Sexp::atom(*rng.pick(&LEVELS));
     let df = if rng.chance(1, 3) { Sexp::atom(*rng.pick(&LEVELS)) } else { Sexp::atom("none") };
@@ -320,6 +486,12 @@ fn gen_c17(rng: &mut Rng, tier: Tier, n: usize) -> Vec<String> {
         let nregs = rng.usize(max_regs + 1);
         let mut paths: Vec<Vec<&str>> = Vec::new();
         let mut regs = Vec::new();
+        // one case in 8 runs the maps at the user level type, one in 8 with bare levels only
+        let (sev, bare_only) = match rng.below(8) {
+            0 => (true, false),
+            1 => (false, true),
+            _ => (false, false),
+        };
         if rng.chance(1, 12) {
             // a WIDE node: 9–13 distinct children of one parent (possibly the root) registered in random order, so
             // that whatever keeps a node's children searchable has to cope with more than a handful
@@ -332,15 +504,16 @@ fn gen_c17(rng: &mut Rng, tier: Tier, n: usize) -> Vec<String> {
             for k in kids {
                 let mut p = parent.clone();
                 p.push(k);
-                let (mn, df) = gen_minf(rng);
+                let (mn, df) = if sev { gen_sevf(rng) } else { gen_minf(rng) };
                 regs.push(Sexp::tagged("p", vec![Sexp::str(&p.join("::")), mn, df]));
                 paths.push(p);
             }
         }
         for _ in 0..nregs {
-            let (mn, df) = gen_minf(rng);
+            let (mn, df) = if sev { gen_sevf(rng) } else { gen_minf(rng) };
+            let bare = !sev && (bare_only || rng.chance(1, 5));
             if rng.chance(1, 8) {
-                regs.push(Sexp::tagged("d", vec![mn, df]));
+                regs.push(if bare { Sexp::tagged("db", vec![mn]) } else { Sexp::tagged("d", vec![mn, df]) });
                 continue;
             }
             // mostly: extend / repeat / sibling of an existing path, so tries get deep and shared
@@ -357,7 +530,11 @@ fn gen_c17(rng: &mut Rng, tier: Tier, n: usize) -> Vec<String> {
                 gen_path(rng, 4)
             };
             paths.push(p.clone());
-            regs.push(Sexp::tagged("p", vec![Sexp::str(&p.join("::")), mn, df]));
+            regs.push(if bare {
+                Sexp::tagged("pb", vec![Sexp::str(&p.join("::")), mn])
+            } else {
+                Sexp::tagged("p", vec![Sexp::str(&p.join("::")), mn, df])
+            });
         }
         let mdl = if !paths.is_empty() && rng.chance(4, 5) {
             let mut base = rng.pick(&paths).clone();
@@ -374,8 +551,8 @@ fn gen_c17(rng: &mut Rng, tier: Tier, n: usize) -> Vec<String> {
             gen_path(rng, 5)
         };
         let case = Sexp::tagged(
-            "c17",
-            vec![Sexp::tagged("regs", regs), Sexp::str(&mdl.join("::")), gen_props(rng)],
+            if sev { "c17s" } else { "c17" },
+            vec![Sexp::tagged("regs", regs), Sexp::str(&mdl.join("::")), if sev { gen_props_sev(rng) } else { gen_props(rng) }],
         );
         out.push(case.to_string());
     }
@@ -384,9 +561,16 @@ fn gen_c17(rng: &mut Rng, tier: Tier, n: usize) -> Vec<String> {
 
 fn gen_min(rng: &mut Rng, _tier: Tier, n: usize) -> Vec<String> {
     (0..n)
-        .map(|_| {
-            let (mn, df) = gen_minf(rng);
-            Sexp::tagged("min", vec![mn, df, gen_props(rng)]).to_string()
+        .map(|_| match rng.below(6) {
+            0 => Sexp::tagged("minb", vec![gen_minf(rng).0, gen_props(rng)]).to_string(),
+            1 => {
+                let (mn, df) = gen_sevf(rng);
+                Sexp::tagged("mins", vec![mn, df, gen_props_sev(rng)]).to_string()
+            }
+            _ => {
+                let (mn, df) = gen_minf(rng);
+                Sexp::tagged("min", vec![mn, df, gen_props(rng)]).to_string()
+            }
         })
         .collect()
 }
